@@ -6,6 +6,7 @@ out=seeded/RESULTS.txt; : > $out
 for d in seeded/C*/*/; do
   d=${d%/}
   [ -f $d/patch.diff ] || continue
+  if grep -q '"obsolete"' $d/meta.json; then echo "seeded=$(basename $(dirname $d))/$(basename $d) OBSOLETE (see meta.json)" >> $out; continue; fi
   r=$(tools/seeded.sh $d quick 2>&1)
   echo "$r" | grep '^seeded=' | sed 's/ SUMMARY.*violations=/ violations=/; s/ known_finding.*//' >> $out
   if echo "$r" | grep -q 'patch does not apply'; then echo "seeded=$(basename $(dirname $d))/$(basename $d) PATCH-DOES-NOT-APPLY" >> $out; fi
